@@ -31,6 +31,13 @@ def run_one(job):
     err = io.StringIO()
     old_stdin = sys.stdin
     sys.stdin = io.StringIO(job.get('stdin', ''))
+    if os.environ.get('C07_TTY') == '1':
+        # the same input typed at a terminal: what is printed for the user's
+        # benefit must not end up in the output
+        class Terminal(io.StringIO):
+            def isatty(self):
+                return True
+        sys.stdin = Terminal(job.get('stdin', ''))
     status = 'ok'
     try:
         with contextlib.redirect_stdout(out), contextlib.redirect_stderr(err):
